@@ -101,7 +101,9 @@ def step (line : String) : String :=
       | some v => showCF v
       | none => "rejected"
     | _, _, _, _ => "bad-op"
-  | ["config"] => s!"{showRat integrateEpsrel} {subdivLimit} {quadratureDefaultsAreConfig}"
+  | ["config"] =>
+    let ea := match quadratureEpsabs with | none => "default" | some r => showRat r
+    s!"{showRat integrateEpsrel} {subdivLimit} {quadratureDefaultsAreConfig} epsabs={ea}"
   | _ => "bad-op"
 
 def main : IO Unit := mainLoop step
